@@ -863,7 +863,7 @@ func stripAll(v ssa.Value) ssa.Value {
 func init() {
 	register(&propDef{
 		id:          "C14",
-		explanation: "Decides that encoder and decoder agree on the kind of every field on the wire: GRAMMAR reads the SSA control-flow graphs of GobEncode and GobDecode as NFAs over the tokens U (a varint: append of an encodeUint64 result / call of decodeUint64) and B (one raw byte: append of a single byte / ReadByte) and checks L(GobEncode) ⊆ L(GobDecode) by the subset construction, reporting the first token on which the product automaton is stuck; VARINT checks nine constant relations between encodeUint64 and decodeUint64 (single-byte threshold, prefix base, payload bound, total length, byte order, shift widths); OVERWRITE checks that GobDecode assigns every field of every node on every iteration of a loop, so a reused receiver keeps no stale state; FRESH also requires that GobDecode stores no memory of its input slice into the automaton (no zero-copy decode), and NARROWLEN that no length is converted to a type narrower than 64 bits without a proof that it fits (byte(len(links)) is 0 for 256 children). Blocks of raw bytes appended or read at once are a token of their own (S). Does not decide equality of words/ranks after a round trip.",
+		explanation: "Decides that encoder and decoder agree on the kind of every field on the wire: GRAMMAR reads the SSA control-flow graphs of GobEncode and GobDecode as NFAs over the tokens U (a varint: append of an encodeUint64 result / call of decodeUint64) and B (one raw byte: append of a single byte / ReadByte) and checks L(GobEncode) ⊆ L(GobDecode) by the subset construction, reporting the first token on which the product automaton is stuck; VARINT checks nine constant relations between encodeUint64 and decodeUint64 (single-byte threshold, prefix base, payload bound, total length, byte order, shift widths); OVERWRITE checks that GobDecode assigns every field of every node on every iteration of a loop, so a reused receiver keeps no stale state; FRESH also requires that GobDecode stores no memory of its input slice into the automaton (no zero-copy decode), and NARROWLEN that no length is converted to a type narrower than 64 bits without a proof that it fits (byte(len(links)) is 0 for 256 children). Blocks of raw bytes appended or read at once are a token of their own (S). GLOBAL: package dawg keeps no package-level state (no shared scratch buffer in the codec). Does not decide equality of words/ranks after a round trip.",
 		notDecided:  []string{"that the decoded automaton has the same words, ranks, node count and search results", "that re-encoding gives the same bytes", "that element counts on the wire match loop counts (regular approximation ignores counts)"},
 		assumptions: []string{"every byte of the output is appended through the recognised primitives (an unrecognised append to the output chain is 'undecided' and fails)"},
 		run: func(c *Ctx, tier string) []*RuleResult {
@@ -892,7 +892,10 @@ func init() {
 			}
 			fr.oblig(!keeps)
 			nl := ruleNarrowLen(c, filesOf(c, "(*dawg.Dawg).GobEncode", "(*dawg.Dawg).GobDecode", "dawg.encodeUint64", "dawg.decodeUint64"))
-			return []*RuleResult{g, v, ow, fr, nl}
+			// the codec keeps no package-level scratch: two decodes (or encodes) of different automata cannot meet
+			gl := ruleGlobalIn(c, "dawg")
+			gl.Doc = "no function of package dawg writes through, or hands out, a package-level variable (a shared varint buffer would be corrupted by concurrent decodes and would tie one result to the next call)"
+			return []*RuleResult{g, v, ow, fr, nl, gl}
 		},
 		controls: func(ctl *Ctx) []*RuleResult {
 			g := &RuleResult{Rule: "GRAMMAR"}
